@@ -22,8 +22,9 @@ def lock_class(e):
     return 'global:' + r[1] if r is not None else pstr(e)
 
 
-def single_assign_aliases(fn):
-    """local -> tree, for locals assigned exactly once (decl init or one store) from a side-effect-free path."""
+def single_assign_aliases(fn, arith=False):
+    """local -> tree, for locals assigned exactly once (decl init or one store) from a side-effect-free path
+    (with arith=True also from pure arithmetic over such paths)."""
     cnt, val = {}, {}
     for ev in fn.events(('decl', 'st')):
         e = ev.get('e')
@@ -57,7 +58,7 @@ def single_assign_aliases(fn):
     for n, c in cnt.items():
         if c == 1 and val.get(n) is not None and n not in addr:
             v = strip(val[n])
-            if v and v[0] in ('m', 'v', 'i') or (v and v[0] == 'u' and v[1] in ('*', '&')):
+            if v and v[0] in ('m', 'v', 'i') or (v and v[0] == 'u' and v[1] in ('*', '&')) or (arith and v and v[0] == 'b'):
                 if not any(x[0] in ('c', 'a') or (x[0] == 'u' and x[1] in ('x++', 'x--', '++x', '--x')) for x in subexprs(v)):
                     out[n] = v
     return out
